@@ -1,8 +1,8 @@
 #!/usr/bin/env python3
 """usage: c13_decode.py cases impl model [line] — show, per stimulus, the implementation's and the model's step of the first (or given) differing case"""
 import sys
-W={0:5,1:2,2:3,3:2,4:2,5:3,6:3,7:2,8:2,9:4,10:2,11:2,12:2,13:3,14:4,15:5,16:2,17:2}
-NAME={0:'Send p dial len tag',1:'Cancel rid',2:'Established p broken',3:'Closed p',4:'DialFail p',5:'Opened k gate',6:'OpenFail k unsup',7:'Unblock k',8:'BreakW k',9:'Respond k len tag',10:'Eof k',11:'Err k',12:'Advance dt',13:'InOpen p gate',14:'InReq k len tag',15:'URespond k len tag fb',16:'UReject k',17:'BreakConn p'}
+W={0:5,1:2,2:4,3:2,4:2,5:3,6:3,7:2,8:2,9:4,10:2,11:2,12:2,13:3,14:4,15:5,16:2,17:2}
+NAME={0:'Send p dial len tag',1:'Cancel rid',2:'Established p broken cap',3:'Closed p',4:'DialFail p',5:'Opened k gate',6:'OpenFail k unsup',7:'Unblock k',8:'BreakW k',9:'Respond k len tag',10:'Eof k',11:'Err k',12:'Advance dt',13:'InOpen p gate',14:'InReq k len tag',15:'URespond k len tag fb',16:'UReject k',17:'BreakConn p'}
 EW={1:2,2:4,3:3,4:5,5:4,7:3}
 def ops(c):
     i=4; out=[]
